@@ -294,7 +294,7 @@ def run():
         else:
             raise common.MachineryError("MC_Stream failed:\n" + mc["out"][-3000:])
     chk.exhaustive = mc["ok"]
-    cases = [make_case(rng) for _ in range(600 if QUICK else 6000)]
+    cases = [make_case(rng) for _ in range(600 if QUICK else 20000)]
     # binding self-test
     corrupted = []
     for c in cases[:30]:
